@@ -51,19 +51,30 @@ func addAgentNode(sc *agentcache.SchedulerCache, n sched.NodeSpec) {
 	}
 }
 
-// logBinder records what Binder.Bind is handed and accepts everything.
+// logBinder is the API server's side of Binder.Bind: the Binding of a task of the current script
+// fails and is reported PER TASK in the returned map (as DefaultBinder.Bind does); every other
+// Binding succeeds -- the pod IS bound -- and is recorded in the log.  calls = sizes of the batches
+// it was handed.
 type logBinder struct {
-	mu  sync.Mutex
-	log [][2]int64
+	mu    sync.Mutex
+	log   [][2]int64
+	fail  map[int64]bool
+	calls []int
 }
 
 func (b *logBinder) Bind(_ kubernetes.Interface, tasks []*api.TaskInfo) map[api.TaskID]string {
 	b.mu.Lock()
 	defer b.mu.Unlock()
+	errMsg := map[api.TaskID]string{}
+	b.calls = append(b.calls, len(tasks))
 	for _, t := range tasks {
+		if b.fail[sched.ParseID(string(t.UID))] {
+			errMsg[t.UID] = "scripted: the Binding fails"
+			continue
+		}
 		b.log = append(b.log, [2]int64{sched.ParseID(string(t.UID)), sched.ParseID(t.NodeName)})
 	}
-	return map[api.TaskID]string{}
+	return errMsg
 }
 func (b *logBinder) pairs() [][2]int64 { b.mu.Lock(); defer b.mu.Unlock(); return append([][2]int64{}, b.log...) }
 func (b *logBinder) has(t, n int64) bool {
@@ -156,12 +167,23 @@ func runAgent(in []int64) ([]int64, []int64) {
 	removedWhileHolding := map[int64]bool{}
 	forgotten := map[[2]int64]bool{} // (pod, node) pairs the cache dropped with a removed node
 	forgot := false
+	var queued []int      // accepted calls whose bind has not been executed yet
+	var batchObs [][]int64 // law 117
 	step := func(i int) error {
 		it := b.Items[i]
 		switch it.Kind {
 		case itBind:
-			return sc.AddBindTask(ctxs[i])
+			err := sc.AddBindTask(ctxs[i])
+			if err == nil {
+				evMu.Lock()
+				queued = append(queued, i)
+				evMu.Unlock()
+			}
+			return err
 		case itFlow:
+			evMu.Lock()
+			queued = nil
+			evMu.Unlock()
 			// the bind execution: pre-binders (scripted failures), then Binder.Bind
 			pre.mu.Lock()
 			pre.fail = map[int64]bool{}
@@ -170,6 +192,57 @@ func runAgent(in []int64) ([]int64, []int64) {
 			}
 			pre.mu.Unlock()
 			sc.VerifProcessBindFlow()
+		case itBatch:
+			// the same over ONE batch of all queued contexts, with per-Binding faults of the binder
+			pre.mu.Lock()
+			pre.fail = map[int64]bool{}
+			for _, t := range it.Fails {
+				pre.fail[t] = true
+			}
+			pre.mu.Unlock()
+			binder.mu.Lock()
+			binder.fail = map[int64]bool{}
+			for _, t := range it.BindFails {
+				binder.fail[t] = true
+			}
+			binder.mu.Unlock()
+			evMu.Lock()
+			batch := queued
+			queued = nil
+			evMu.Unlock()
+			onLedger := func(j int) bool {
+				ni := agentNodeInfo(sc, sched.NodeName(b.Items[j].Bind[2]))
+				if ni == nil {
+					return false
+				}
+				for k := range ni.Tasks { // keyed by PodKey
+					if sched.ParseID(string(k)) == b.Items[j].Bind[1] {
+						return true
+					}
+				}
+				return false
+			}
+			before := make([]bool, len(batch))
+			for k, j := range batch {
+				before[k] = onLedger(j)
+			}
+			if got := sc.VerifProcessBindFlowBatch(); got != len(batch) {
+				panic(fmt.Sprintf("batch hook processed %d contexts, %d were accepted since the last execution", got, len(batch)))
+			}
+			binder.mu.Lock()
+			binder.fail = map[int64]bool{}
+			binder.mu.Unlock()
+			obs := []int64{int64(len(it.Fails))}
+			obs = append(obs, it.Fails...)
+			obs = append(obs, int64(len(it.BindFails)))
+			obs = append(obs, it.BindFails...)
+			obs = append(obs, int64(len(batch)))
+			for k, j := range batch {
+				obs = append(obs, b.Items[j].Bind[1], b.Items[j].Bind[2], vh.B(before[k]), vh.B(onLedger(j)))
+			}
+			evMu.Lock()
+			batchObs = append(batchObs, obs)
+			evMu.Unlock()
 		case itRemoveNode:
 			if ni := agentNodeInfo(sc, sched.NodeName(it.Task)); ni != nil && len(ni.Tasks) > 0 {
 				evMu.Lock()
@@ -271,11 +344,14 @@ func runAgent(in []int64) ([]int64, []int64) {
 	// its node until its pod object is deleted
 	for _, i := range order {
 		it := b.Items[i]
-		if it.Kind != itFlow {
+		if it.Kind != itFlow && it.Kind != itBatch {
 			continue
 		}
 		failing := map[int64]bool{}
 		for _, t := range it.Fails {
+			failing[t] = true
+		}
+		for _, t := range it.BindFails {
 			failing[t] = true
 		}
 		for _, j := range order {
@@ -320,7 +396,13 @@ func runAgent(in []int64) ([]int64, []int64) {
 		got = append(got, p[0], p[1])
 	}
 	lastLaw = append(replay.finalSpecs().enc(), held...)
-	lastSig, lastLawExcused = "", nil
+	lastSig, lastLawExcused, lastBatchLaw = "", nil, nil
+	if len(batchObs) > 0 {
+		lastBatchLaw = []int64{int64(len(batchObs))}
+		for _, o := range batchObs {
+			lastBatchLaw = append(lastBatchLaw, o...)
+		}
+	}
 	if forgot {
 		// the finding explains exactly the pods dropped with the removed node: law 112 on the full
 		// held sets carries the sig, and the same law is emitted UNSIGNED (selector 116) on the held
@@ -540,6 +622,43 @@ func prebindCase(r *vh.Rng) bindCase {
 	return b
 }
 
+// batchCase (directed, seeded mutant C02-r8-2): several pods are admitted to one node and executed
+// as ONE batch; the Binding of exactly one of them fails (optionally the PreBind of another), the
+// others ARE bound by the API server.  Then a pod is aimed at the node that fits only into the room
+// of a pod that was really bound (refused by a cache that kept it), and a small one that fits anyway.
+func batchCase(r *vh.Rng) bindCase {
+	var b bindCase
+	k := int64(r.Range(2, 4)) // contexts of the batch
+	unit := int64(r.Range(1, 3)) * 500
+	cpu := unit * (k + 1)
+	b.Nodes = []sched.NodeSpec{{ID: 1, Has: true, CPU: cpu, Mem: 64 << 20, Pods: 20}}
+	if r.Chance(1, 2) {
+		b.Nodes = append(b.Nodes, sched.NodeSpec{ID: 2, Has: true, CPU: cpu, Mem: 64 << 20, Pods: 20})
+	}
+	for i := int64(1); i <= k; i++ {
+		b.Tasks = append(b.Tasks, sched.TaskSpec{ID: i, Job: 1, Role: 1, CPU: unit, Mem: 1 << 20, Status: sched.SPending})
+		b.Items = append(b.Items, item{Kind: itBind, Bind: [3]int64{1, i, 1}})
+	}
+	// after the batch the node has 'unit' free plus what the failed contexts released
+	bf := int64(r.Range(1, int(k)))
+	batch := item{Kind: itBatch, BindFails: []int64{bf}}
+	released := unit
+	if k >= 3 && r.Chance(1, 2) {
+		pf := bf%k + 1
+		batch.Fails = []int64{pf}
+		released += unit
+	}
+	b.Items = append(b.Items, batch)
+	// does not fit beside the bound pods; fits as soon as one of them is forgotten
+	b.Tasks = append(b.Tasks, sched.TaskSpec{ID: k + 1, Job: 1, Role: 1, CPU: unit + released + 250, Mem: 1 << 20, Status: sched.SPending},
+		sched.TaskSpec{ID: k + 2, Job: 1, Role: 1, CPU: unit + released, Mem: 1 << 20, Status: sched.SPending})
+	b.Items = append(b.Items, item{Kind: itBind, Bind: [3]int64{1, k + 1, 1}}, item{Kind: itBind, Bind: [3]int64{1, k + 2, 1}}, item{Kind: itBatch})
+	b.Jobs = []sched.JobSpec{{ID: 1, Queue: 1}}
+	b.Workers = int64(r.Range(1, 3))
+	b.Exact = true
+	return b
+}
+
 func genAgent(rng *vh.Rng, n int, emit func(id string, sel int, in []int64, kind string, nontrivial bool, desc any)) {
 	fr := rng.Fork()
 	for i := 0; i < max(4, n/50); i++ {
@@ -566,5 +685,11 @@ func genAgent(rng *vh.Rng, n int, emit func(id string, sel int, in []int64, kind
 		kind := fmt.Sprintf("bind/agent/exact=%v/events=%v", b.Exact, b.hasEvents())
 		desc := map[string]any{"nodes": len(b.Nodes), "tasks": len(b.Tasks), "workers": b.Workers, "items": len(b.Items)}
 		emit(fmt.Sprintf("agent-%d", i), 3, b.enc(), kind, nt, desc)
+	}
+	br := rng.Fork()
+	for i := 0; i < max(4, n/50); i++ {
+		b := batchCase(br.Fork())
+		emit(fmt.Sprintf("agent-batch-%d", i), 3, b.enc(), "bind/agent/batch", true,
+			map[string]any{"directed": "batch of admitted pods, one Binding fails, then a pod that fits only if a bound pod is forgotten", "items": len(b.Items)})
 	}
 }
